@@ -117,6 +117,7 @@ func WitnessAll(rec *ev.Rec) {
 	WitnessF30(rec)
 	WitnessF31(rec)
 	WitnessF32(rec)
+	WitnessF33(rec)
 }
 
 // ---- F1 / F2 / F3: gNMI encoding and decoding gaps ------------------------------------------------
@@ -227,8 +228,15 @@ func IsF3Err(hasEmptyLL bool, err error) bool {
 
 // SteerAway makes the trigger regions of the active findings rare (never absent) in generated trees.
 func SteerAway(rec *ev.Rec, o *model.GenOpts) {
-	f1, f2, f3, f28 := rec.Active(F1), rec.Active(F2), rec.Active(F3), rec.Active(F28)
+	f1, f2, f3, f28, f33 := rec.Active(F1), rec.Active(F2), rec.Active(F3), rec.Active(F28), rec.Active(F33)
 	o.Rare = func(f *model.FieldInfo) bool {
+		if f33 && f.Owner.V.Wrapper && (f.Kind == model.FList || f.Kind == model.FOrdList) {
+			for _, kf := range f.KeyFields {
+				if kf.ElemUnion {
+					return true
+				}
+			}
+		}
 		if f1 && (f.Kind == model.FList || f.Kind == model.FOrdList) {
 			for _, kf := range f.KeyFields {
 				if kf.Type.VKind() == model.KInt64 {
@@ -442,4 +450,42 @@ func OrderedEmptied(before, after *model.Node) bool {
 		}
 	}
 	return false
+}
+
+// ---- F33: wrapper unions as list keys ---------------------------------------------------------------
+
+const F33 = "F33-wrapper-union-list-key"
+
+// WitnessF33: with wrapper unions a list keyed by a union holds pointer-valued map keys, so merging
+// into an existing entry by key creates a second entry with the same key instead.
+func WitnessF33(rec *ev.Rec) {
+	rec.Witness(F33, func() (bool, string) {
+		v := variants.Get("vtw")
+		root := v.NewRoot()
+		for _, js := range []string{`{"top":{"keyed":{"k-union":[{"k":5,"v":"a"}]}}}`, `{"top":{"keyed":{"k-union":[{"k":5,"v":"b"}]}}}`} {
+			if err := v.Unmarshal([]byte(js), root); err != nil {
+				return true, err.Error()
+			}
+		}
+		got := model.Observe(v, root)
+		if n := len(got.Cont["Top"].Cont["Keyed"].List["KUnion"]); n != 1 {
+			return true, fmt.Sprintf("unmarshalling k-union[k=5] twice into a vtw tree gives %d entries with key 5, want 1", n)
+		}
+		return false, ""
+	})
+}
+
+// UnionKeyed: the tree holds an entry of a list that has a union-typed key.
+func UnionKeyed(m *model.Node) bool {
+	return m.AnyField(func(_ *model.Node, f *model.FieldInfo) bool {
+		if f.Kind != model.FList && f.Kind != model.FOrdList {
+			return false
+		}
+		for _, kf := range f.KeyFields {
+			if kf.ElemUnion {
+				return true
+			}
+		}
+		return false
+	})
 }
